@@ -288,6 +288,11 @@ pub fn find_partitioned_rice_parameter(
     })
 }
 
+#[cfg(flacenc_verif)]
+pub(crate) fn verif_finest_partition_order(size: usize, min_part_size: usize) -> usize {
+    finest_partition_order(size, min_part_size)
+}
+
 #[cfg(test)]
 mod tests {
     use super::*;
